@@ -96,7 +96,7 @@ pub fn chk_result(cx: &Ctx) -> Vec<Viol> {
                 vs.push(v(key, format!("{} returned {:x?}, sequential chain yields {:x?}", t.name(), got, exp)));
             }
         }
-        (Term::CollectX, TermResult::Ids(got)) => {
+        (Term::CollectX | Term::WCollectX | Term::HCollectX, TermResult::Ids(got)) => {
             let a = multiset(got.iter().copied());
             let b = multiset(out.iter().map(|e| e.id));
             if a != b {
@@ -774,7 +774,7 @@ pub fn chk_vs_seq(cx: &Ctx, seq: &Result<TermResult, String>) -> Vec<Viol> {
     match (&cx.obs.result, seq) {
         (Ok(a), Ok(b)) => {
             let same = match (a, b) {
-                (TermResult::Ids(x), TermResult::Ids(y)) if cx.case.term == Term::CollectX => multiset(x.iter().copied()) == multiset(y.iter().copied()),
+                (TermResult::Ids(x), TermResult::Ids(y)) if matches!(cx.case.term, Term::CollectX | Term::WCollectX | Term::HCollectX) => multiset(x.iter().copied()) == multiset(y.iter().copied()),
                 (TermResult::Red(x), TermResult::Red(y)) => x.map(|t| t.1) == y.map(|t| t.1),
                 _ => a == b,
             };
